@@ -57,7 +57,8 @@ Qed.
 Theorem screen_layout v st addr st' :
   update_screen (Some v) st addr = ROk st' ->
   s_width st' = s_width st /\ s_height st' = s_height st /\ s_bpp st' = s_bpp st /\ s_palette st' = s_palette st /\
-  s_frames st' = (s_pix st', s_palette st') :: s_frames st /\
+  s_frames st' = (s_pix st', s_palette st', expand (s_palette st') (s_pix st')) :: s_frames st /\
+  s_rgb st' = expand (s_palette st') (s_pix st') /\
   length (s_pix st') = N.to_nat (s_width st * s_height st) /\
   forall x y, x < s_width st -> y < s_height st ->
     nthN (s_pix st') (x + y * s_width st) =
@@ -186,7 +187,8 @@ Theorem rectangle_only_box v st x y rw rh addr st' :
   update_rectangle (Some v) st x y rw rh addr = ROk st' ->
   x + rw <= s_width st /\ y + rh <= s_height st /\
   s_width st' = s_width st /\ s_height st' = s_height st /\ s_palette st' = s_palette st /\
-  s_frames st' = (s_pix st', s_palette st') :: s_frames st /\
+  s_frames st' = (s_pix st', s_palette st', expand (s_palette st') (s_pix st')) :: s_frames st /\
+  s_rgb st' = expand (s_palette st') (s_pix st') /\
   length (s_pix st') = length (s_pix st) /\
   forall px py, px < s_width st -> py < s_height st ->
     nthN (s_pix st') (px + py * s_width st) =
